@@ -477,6 +477,10 @@ func (c *Client) Mail(from string, opts *MailOptions) error {
 		// We can safely discard parameter if server does not support AUTH.
 	}
 	_, _, err := c.cmd(250, "%s", sb.String())
+	if err == nil {
+		// a new transaction has no recipients yet
+		c.rcpts = nil
+	}
 	return err
 }
 
@@ -560,10 +564,12 @@ func (d *dataCloser) Close() error {
 	d.c.conn.SetDeadline(time.Now().Add(d.c.SubmissionTimeout))
 	defer d.c.conn.SetDeadline(time.Time{})
 
-	expectedResponses := len(d.c.rcpts)
 	if d.c.lmtp {
-		for expectedResponses > 0 {
-			rcpt := d.c.rcpts[len(d.c.rcpts)-expectedResponses]
+		// One reply per recipient of this transaction; the next
+		// transaction starts with an empty list.
+		rcpts := d.c.rcpts
+		d.c.rcpts = nil
+		for _, rcpt := range rcpts {
 			if _, _, err := d.c.readResponse(250); err != nil {
 				if smtpErr, ok := err.(*SMTPError); ok {
 					if d.statusCb != nil {
@@ -575,7 +581,6 @@ func (d *dataCloser) Close() error {
 			} else if d.statusCb != nil {
 				d.statusCb(rcpt, nil)
 			}
-			expectedResponses--
 		}
 	} else {
 		_, _, err := d.c.readResponse(250)
